@@ -169,8 +169,8 @@ func dagPut(ctx context.Context, rc *regclient.RegClient, mc dagConfig, rSrc, rT
 			}
 			if d.Size <= mc.maxDataSize || (mc.maxDataSize < 0 && len(d.Data) > 0) {
 				// if data field should be set
-				// retrieve the body
-				mBytes, err := dm.m.RawBody()
+				// retrieve the body of the child manifest
+				mBytes, err := child.m.RawBody()
 				if err != nil {
 					return err
 				}
